@@ -509,10 +509,26 @@ def run(ctx):
     cp = ctx.path("cases.ndjson")
     vlib.write_ndjson(cp, cases)
     ctx.log("driver input: %s" % stats)
-    trace, out = ctx.godriver("c15", "TestC15", cases=cp, timeout=600 if q else 3000, extra=["-overlay", ov])
+    dto = 600 if q else 3000
+    # the driver gets 60 % of its time as a wall budget: on a tree whose rounds end only with their
+    # context it stops early and says so; what it recorded until then is real behaviour and is judged,
+    # the cut itself is never a verdict (no violation in the prefix -> inconclusive, as a timeout was)
+    trace, out = ctx.godriver("c15", "TestC15", cases=cp, timeout=dto, extra=["-overlay", ov],
+                              env={"VERIF_BUDGET_S": str(dto * 6 // 10)})
     recs = vlib.read_ndjson(trace)
+    cut = [r for r in recs if r.get("kind") == "cutoff"]
+    recs = [r for r in recs if r.get("kind") != "cutoff"]
     nexp = sum(1 for c in cases if c["kind"] != "session") + stats["session_rounds"]
-    if len(recs) != nexp:
+    if cut:
+        # incomplete uniformity groups say nothing about frequencies: leave them out
+        have = {}
+        for r in recs:
+            if r.get("gid"):
+                have[r["gid"]] = have.get(r["gid"], 0) + 1
+        recs = [r for r in recs if not r.get("gid") or have[r["gid"]] == r.get("glen", have[r["gid"]])]
+        ctx.log("driver stopped at its wall budget after %s of %s cases (%d records kept)"
+                % (cut[0].get("done"), cut[0].get("total"), len(recs)))
+    elif len(recs) != nexp:
         raise vlib.Inconclusive("driver produced %d records, %d expected" % (len(recs), nexp))
     # the members of a uniformity group are consecutive in the validated trace (the rounds before the
     # judged one of a multi-round member carry no group id and stay where they are)
@@ -555,6 +571,9 @@ def run(ctx):
                                                       {k: bad[k] for k in bad if not k.startswith("exp_")}), bad)
         nval -= 1
         invs.remove(inv)   # one witness per clause; go on with the other clauses
+    if cut and not ctx.violations:
+        raise vlib.Inconclusive("driver used its wall budget after %s of %s cases and the rounds recorded until then "
+                                "satisfy the property section" % (cut[0].get("done"), cut[0].get("total")))
     if not ctx.violations:
         ok, l, inv, tout = ctx.validate("MultipathTrace", "MultipathTrace_strict.cfg", pp, timeout=900)
         if not ok:
